@@ -64,7 +64,7 @@ PROPS = {
         lean=['Props.C20', 'Props.FactsProc'],
         streams=['loglimiter'],
         rule='histories of (time, message) arrivals over 1-3 messages with steps in {0,1,iv-1,iv,iv+1,iv/2,2iv,iv/3} '
-             '(thorough: plus every history of length <= 6 over 3 messages x 4 time steps); non-trivial = at least one '
+             '(thorough: plus every history of length <= 5 over 3 messages x 4 time steps); non-trivial = at least one '
              'suppression and two prints; distinct by op text',
         trusted=['overlay accessor VerifSetClock (sets the unexported nowFunc); log output captured via log.SetOutput'],
         assumptions=['non-decreasing clock', 'the zero time.Time of a fresh limiter is further than any interval before the first arrival'],
